@@ -59,6 +59,9 @@ type Stream struct {
 	// does it.
 	TransientErrAt     int
 	TransientDelivered bool
+	// ErrOnce: a terminal error (not io.EOF) is reported by one read only; reads after it report io.EOF, as
+	// readers that verify or decode on the fly do (io.Reader does not require errors to be sticky).
+	ErrOnce bool
 	// CloseErr is returned by Close.
 	CloseErr error
 	// Cancellable makes parked reads give up when Ctx ends (response bodies).
@@ -223,8 +226,12 @@ func (s *Stream) Read(p []byte) (int, error) {
 		op.End("0,nil")
 		return 0, nil
 	case n == 0:
-		// terminal condition on its own (sticky)
+		// terminal condition on its own (sticky, unless ErrOnce)
 		err = s.term()
+		if s.ErrOnce && s.TermDelivered && err != io.EOF {
+			s.Env.Fault("error-reported-once-then-eof" + s.tag())
+			err = io.EOF
+		}
 		s.deliverTerm(err)
 		op.End("0,%v", err)
 		return 0, err
